@@ -44,7 +44,7 @@ def configs(tier):
     for c in out:
         if c['flux'] == 'hlle':
             c['timeout_ms'] = 60000 if q else 300000
-            c['budget_s'] = 290 if q else 3000
+            c['budget_s'] = 290 if q else 1500
     return out
 
 
